@@ -177,7 +177,7 @@ impl Property for C32 {
         ]
     }
     fn cases(&self, tier: Tier) -> u32 {
-        tier.pick(24_000, 1_000_000)
+        tier.pick(72_000, 1_000_000)
     }
     fn strategy(&self, _tier: Tier) -> BoxedStrategy<Case> {
         let nk = KEYS.len();
